@@ -24,7 +24,8 @@ suite (level_note of C10).  An empty version file is reported as `null` (`cfgVer
 unchanged code dies in `int('')` (ValueError), i.e. the code fails closed until somebody rewrites the file (`forgeCfgVer` /
 `forgeJsVer`).
 
-Failed write (`{"k": "failWrite", "op": <api op>, "after": k}`): the (k+1)-th file write of the call raises OSError(EDQUOT) - a
+Failed write (`{"k": "failWrite", "op": <api op>, "after": k, "torn": b}`; with `torn` a failing version-file write leaves the file
+EMPTY - `open(f, "w")` succeeded, `write()` raised): the (k+1)-th file write of the call raises OSError(EDQUOT) - a
 NON-FATAL failure: the exception passes through `_do_action_under_lock_internal` (lock released, deadlock marker re-created) to
 the caller, and the SAME handle is used afterwards (like after an update that raises KeyError for an unknown job name or trips
 an assertion: `bad_update` in clustergen).  Then other handles change the state and the handle that failed writes again.
@@ -322,8 +323,13 @@ class ClusterSuite(Suite):
             if self._kill["left"] == 0:
                 self._kill["fired"] = True
                 if self._kill.get("mode") == "oserror":
-                    # a NON-FATAL write failure: this one write raises, the process (and its handle) lives on
+                    # a NON-FATAL write failure: this one write raises, the process (and its handle) lives on.  With "torn" the
+                    # `open(f, "w")` of a version file had succeeded (file truncated) and `write()` raised: the file is EMPTY
                     self._kill["left"] = -1
+                    if self._kill.get("torn") and name in VERSION_FILE_OF:
+                        path = getattr(args[0], VERSION_FILE_OF[name])
+                        open(path, "w").close()
+                        self._kill["tornfile"] = os.path.basename(path)
                     raise OSError(errno.EDQUOT, "Disk quota exceeded")
                 if self._kill.get("torn") and name in VERSION_FILE_OF:
                     # killed INSIDE the write of a version file: `open(f, "w")` has truncated it, `write()` never ran
@@ -558,10 +564,11 @@ class ClusterSuite(Suite):
         if k == "failWrite":
             # the (after+1)-th file write of the call raises OSError(EDQUOT) instead of writing; everything else - the
             # `except Exception` of `_do_action_under_lock_internal`, the caller, the handle - goes on
-            self._kill = {"left": op["after"], "fired": False, "mode": "oserror"}
+            self._kill = {"left": op["after"], "fired": False, "mode": "oserror", "torn": bool(op.get("torn", False))}
             try:
                 r = self._do(op["op"], x, handles, out, case)
                 self._write_failed = self._kill["fired"]
+                self._tornfile = self._kill.get("tornfile")
                 return r
             finally:
                 self._kill = None
@@ -887,7 +894,8 @@ class ClusterSuite(Suite):
         for op, st, o in zip(case["ops"], steps, obs):
             crash = op["k"] == "crash"
             if op["k"] == "failWrite":
-                t.add(f"failWrite.{op['op']['k']}.after{op['after']}." + ("raised[" + ",".join(sorted(o["changed"])) + "]" if o.get("write_failed") else "notReached"))
+                t.add(f"failWrite.{op['op']['k']}.after{op['after']}." + ("raised[" + ",".join(sorted(o["changed"])) + "]" if o.get("write_failed") else "notReached")
+                      + (".emptied[" + o["tornfile"] + "]" if o.get("tornfile") else ""))
                 op = op["op"]
             elif op["k"] == "stallBegin":
                 t.add(f"stall.{op['op']['k']}.after{op['after']}." + ("parked[" + ",".join(sorted(o["changed"])) + "]" if o.get("stalled") else "notReached"))
